@@ -1148,6 +1148,33 @@ type LitReq struct {
 	Name   string
 	Re     string
 	Unless string // states carrying a literal matching Unless are exempt (conditional obligation C => must(L))
+	OnePhi bool   // every phi token in the matching literal belongs to one and the same source variable (whatever its name)
+}
+
+var phiTokAll = regexp.MustCompile(`phi:(\w+)(~\d+)?`)
+
+// onePhiVar: all phi tokens of the literal name one source variable.
+func onePhiVar(l string) bool {
+	base := ""
+	for _, m := range phiTokAll.FindAllStringSubmatch(l, -1) {
+		if m[1] == "rangeindex" {
+			continue
+		}
+		if base != "" && m[1] != base {
+			return false
+		}
+		base = m[1]
+	}
+	return true
+}
+
+func hasLitOnePhi(s *pstate, re *regexp.Regexp) (string, bool) {
+	for l := range s.lits {
+		if re.MatchString(l) && onePhiVar(l) {
+			return l, true
+		}
+	}
+	return "", false
 }
 
 func (r LitReq) check(states []*pstate) (ok bool, witness string, failing *pstate, exempt int) {
@@ -1164,7 +1191,11 @@ func (r LitReq) check(states []*pstate) (ok bool, witness string, failing *pstat
 				continue
 			}
 		}
-		if l, has := hasLit(s, re); has {
+		find := hasLit
+		if r.OnePhi {
+			find = hasLitOnePhi
+		}
+		if l, has := find(s, re); has {
 			witness = l
 		} else {
 			return false, "", s, exempt
@@ -1305,7 +1336,6 @@ func (c *Ctx) MustLoopBack(rule string, fn *ssa.Function, callRe string, reqs []
 
 func mustRe(s string) *regexp.Regexp { return regexp.MustCompile(s) }
 
-
 // PhiRow is one path state at the join that defines a named variable: the value selected and the literals that hold.
 type PhiRow struct {
 	Val   string
@@ -1334,7 +1364,6 @@ func (f *Facts) PhiTable(name string) (*ssa.Phi, []PhiRow) {
 	}
 	return phi, rows
 }
-
 
 // neverNilError: calls that construct an error (fmt.Errorf, errors.New) never return nil.
 func neverNilError(v ssa.Value) bool {
@@ -1519,7 +1548,6 @@ func (c *Ctx) AllDominatedBy(rule string, fn *ssa.Function, reA, reB string, min
 func (c *Ctx) termOf(fn *ssa.Function, v ssa.Value) string {
 	return c.Facts(fn).tr.term(nil, v, 0)
 }
-
 
 func singleStoredValue(a *ssa.Alloc) ssa.Value {
 	refs := a.Referrers()
